@@ -41,6 +41,13 @@ FAMILIES = {
     'val.plan': dict(module='MC_Val', fam='plan', walker='val-walk', scale='1',
                      invariants=[], properties=['P_ValSet', 'P_Plan', 'P_NoEffectOnReject'],
                      failcap=dict(quick=1, thorough=2), timeout=dict(quick=300, thorough=2400)),
+    # ---- oracle relay (C15) --------------------------------------------------------------------
+    'or.oracle': dict(module='MC_Oracle', fam='oracle', walker='oracle-walk', scale='1',
+                      invariants=[], properties=['P_Oracle', 'P_NoEffectOnReject'],
+                      failcap=dict(quick=1, thorough=2), timeout=dict(quick=300, thorough=2400)),
+    'or.disabled': dict(module='MC_Oracle', fam='disabled', walker='oracle-walk', scale='1',
+                        invariants=[], properties=['P_Oracle', 'P_NoEffectOnReject'],
+                        failcap=dict(quick=1, thorough=2), timeout=dict(quick=300, thorough=2400)),
     # ---- formats / purity (C17): enumeration of a TLA+-defined function and replay --------------
     'fmt.formats': dict(kind='formats', module='MC_Formats', sm_module='SliceMem',
                         consts=dict(quick=dict(MaxTree=9, MaxProof=6, NItems=3, rounds=60), thorough=dict(MaxTree=16, MaxProof=8, NItems=4, rounds=1500)),
@@ -63,6 +70,7 @@ PROPERTIES = {
     'C12': dict(families=['l1.auth', 'l2.auth', 'val.valset'], title='authorization'),
     'C13': dict(families=['val.valset'], title='validator set equals what the engine was told'),
     'C14': dict(families=['val.plan'], title='executor change plan'),
+    'C15': dict(families=['or.oracle', 'or.disabled'], title='oracle prices need a signed quorum'),
     'C16': dict(families=['l1.ledger', 'l2.deposit', 'val.valset'], title='genesis round trip'),
     'C17': dict(families=['fmt.formats'], title='commitment formats and purity'),
     'C20': dict(families=['ante.cases'], title='mempool admission'),
